@@ -7,6 +7,9 @@ p = os.path.join(ROOT, "bin", "obligations.json")
 ob = json.load(open(p))
 for pid in sys.argv[1:]:
     src = open(os.path.join(ROOT, "lean", "DuckModel", "Props", pid + ".lean")).read()
+    # a property's theorems may be split over Props/<pid>*.lean files imported by Props/<pid>.lean
+    for sub in re.findall(r"^import DuckModel\.Props\.(%s\w+)" % pid, src, re.M):
+        src += "\n" + open(os.path.join(ROOT, "lean", "DuckModel", "Props", sub + ".lean")).read()
     names = re.findall(r"^theorem\s+(%s_\w+)" % pid, src, re.M)
     e = ob.setdefault(pid, {"theorems": [], "trusted_base": [], "assumptions": [], "partial": []})
     e["theorems"] = ["Duck." + n for n in names]
